@@ -11,7 +11,7 @@ from pyvc import smt
 from pyvc.smt import (Val, VNone, VStr, VBool, VRef, VInt, VBytes, is_none, is_str, is_ref, is_int, get_s, get_b, S)
 from pyvc.values import *
 from pyvc.spec import LoopContract, Contract, forall, exists, implies, ite
-from pyvc.interp import IRaise, OutOfReach, MISSING, PathEnd
+from pyvc.interp import IRaise, OutOfReach, MISSING, PathEnd, ReturnEx
 from pyvc.stdlib_models import b64dec, b64valid
 
 CLIENT = "indi/client/client.py"
@@ -538,4 +538,198 @@ def task_c16_chain(vkind, nchildren):
                        z3.And(I.to_term(e.fields["old_state"]) == cur, I.to_term(e.fields["new_state"]) != cur))
             cur = I.to_term(e.fields["new_state"])
         run.oblige("C16|chain[%s]/last-state-event-is-the-current-state(no-event-means-unchanged)" % label, I.to_term(vec.fields["state"]) == cur)
+    return task
+
+
+# =====================================================================================================
+# C17 -- waiting for an event returns the first match or times out (safety part, segment analysis)
+# =====================================================================================================
+class _Suspend(Exception):
+    pass
+
+
+def task_c17(cond, evkind, with_timeout, polling):
+    """BaseClient.waitforevent split at its yield points.  asyncio is cooperative, so each atomic
+    segment -- the callback `cb`, the tail of `timeout_check`, one iteration of `poll`, the tail of the
+    wait itself -- is verified from an ARBITRARY shared state satisfying the invariant J:
+        J:  lock set  =>  exactly one of (result.timeout, result.event is not None)
+    plus 'once the lock is set the result never changes' (first match wins) and the release table of cb.
+    Time and scheduling order are not modelled (DESIGN 5)."""
+    def task(I, run):
+        from pyvc.stdlib_models import AwaitMarker
+        evm = I.import_module("indi.client.events")
+        c = make_client(I)
+        sent = []
+        I.call_hooks[("indi/device/snoop.py", "SnoopingClient.send_message")] = lambda I_, f, a, k: sent.append(a[1])
+        label = "%s/%s/%s/%s" % (cond, evkind, "timeout" if with_timeout else "no-timeout", "polling" if polling else "no-polling")
+        target = I.fresh_sym("target")
+        run.assume(z3.Not(is_none(target.term)))
+        checked = []
+
+        class CheckFn:
+            callable = True
+
+            def call_self(self, I_, sym, args, kwargs):
+                b = I_.fresh("check_says", z3.BoolSort())
+                checked.append((args[0], b))
+                return Sym(VBool(b))
+        kw = {"device": "D", "vector": "V", "timeout": 5.0 if with_timeout else None, "polling_enabled": polling,
+              "event_type": evm.ns["ValueUpdate" if evkind == "value" else "StateUpdate"]}
+        if cond == "expect":
+            kw["expect"] = target
+        elif cond == "initial":
+            kw["initial"] = target
+        else:
+            kw["check"] = Sym(I.fresh("check_fn"), CheckFn())
+            run.assume(is_ref(kw["check"].term))
+        state = {}
+
+        def hook(I_, v):
+            if isinstance(v, AwaitMarker) and v.what == "event.wait":
+                state["frame"] = I_.frames[-1][1]
+                state["lock"] = v.obj
+                raise _Suspend()
+            return None          # sleeps etc. return
+        I.await_hook = hook
+        f = I.world.functions[(CLIENT, "BaseClient.waitforevent")]
+        ncb0 = len(c.fields["callbacks"].items)
+        co = I.call(IBound(f, c), [], kw)
+        try:
+            I.do_await(co)
+            run.fail("C17|%s/waits-at-all" % label, "waitforevent returned without waiting")
+            return
+        except _Suspend:
+            pass
+        except IRaise as e:
+            run.fail("C17|%s/setup-raises-nothing" % label, "raised %s" % e)
+            return
+        env = state["frame"]
+        lock, result, cbf = state["lock"], env.vars["result"], env.vars["cb"]
+        tasks = list(I.ghost.get("tasks", []))
+        run.oblige("C17|%s/registers-exactly-one-temporary-callback" % label, z3.BoolVal(len(c.fields["callbacks"].items) == ncb0 + 1))
+        run.oblige("C17|%s/timeout-task-created-iff-a-timeout-is-given,polling-task-iff-polling" % label,
+                   z3.BoolVal(len(tasks) == int(with_timeout) + int(polling)))
+
+        def set_state(tag):
+            L = I.fresh("L_" + tag, z3.BoolSort())
+            T = I.fresh("T_" + tag, z3.BoolSort())
+            E = I.fresh("E_" + tag)
+            run.assume(z3.Or(is_none(E), is_ref(E)))
+            run.assume(z3.Implies(L, z3.Xor(T, z3.Not(is_none(E)))))          # J
+            run.assume(z3.Implies(z3.Not(L), z3.And(z3.Not(T), is_none(E))))  # nothing is recorded before the release
+            lock.flag = Sym(VBool(L))
+            result.fields["timeout"] = Sym(VBool(T))
+            result.fields["event"] = Sym(E)
+            return L, T, E
+
+        def get_state():
+            fl = lock.flag
+            L = smt.truthy(fl.term) if isinstance(fl, Sym) else z3.BoolVal(bool(fl))
+            t = result.fields["timeout"]
+            T = smt.truthy(t.term) if isinstance(t, Sym) else z3.BoolVal(bool(t))
+            return L, T, I.to_term(result.fields["event"])
+
+        def J(L, T, E):
+            return z3.Implies(L, z3.Xor(T, z3.Not(is_none(E))))
+        seg = run.choice(4, "segment")
+        if seg == 0:
+            # --- segment: cb(event) for an arbitrary event of either kind
+            L0, T0, E0 = set_state("cb")
+            which = run.choice(2, "event class")
+            ev = IObject(evm.ns["ValueUpdate" if which == 0 else "StateUpdate"])
+            nv = I.fresh_sym("ev_new")
+            ev.fields.update(device=None, vector=None, element=None, old_value=I.fresh_sym("ev_old"), new_value=nv, old_state=I.fresh_sym("ev_olds"), new_state=nv)
+            try:
+                I.call(cbf, [ev], {})
+            except IRaise as e:
+                run.fail("C17|%s/cb/raises-nothing" % label, "cb raised %s" % e)
+                return
+            L1, T1, E1 = get_state()
+            evt = I.to_term(ev)
+            if cond == "expect":
+                satisfies = nv.term == target.term
+            elif cond == "initial":
+                satisfies = nv.term != target.term
+            else:
+                satisfies = checked[-1][1] if checked else z3.BoolVal(False)
+            run.oblige("C17|%s/cb/preserves-J(never-both-never-neither)" % label, J(L1, T1, E1))
+            run.oblige("C17|%s/cb/once-completed-the-result-never-changes(first-match-wins)" % label,
+                       z3.Implies(L0, z3.And(L1, T1 == T0, E1 == E0)))
+            run.oblige("C17|%s/cb/releases-with-this-event-iff-it-satisfies-the-condition" % label,
+                       z3.Implies(z3.Not(L0), z3.And(L1 == satisfies, z3.Implies(satisfies, z3.And(E1 == evt, z3.Not(T1))),
+                                                     z3.Implies(z3.Not(satisfies), z3.And(is_none(E1), z3.Not(T1))))))
+            run.canary("C17|canary[%s]/cb-never-releases" % label, z3.Not(L1))
+        elif seg == 1:
+            if not with_timeout:
+                raise PathEnd()
+            # --- segment: the tail of timeout_check (after its sleep)
+            tc = [t for t in tasks if isinstance(t, ICoroutine) and t.func.name == "timeout_check"]
+            run.oblige("C17|%s/timeout_check/is-the-scheduled-task" % label, z3.BoolVal(len(tc) == 1))
+            if not tc:
+                return
+            L0, T0, E0 = set_state("to")
+            try:
+                I.do_await(tc[0])
+            except IRaise as e:
+                run.fail("C17|%s/timeout_check/raises-nothing" % label, "raised %s" % e)
+                return
+            L1, T1, E1 = get_state()
+            run.oblige("C17|%s/timeout_check/preserves-J" % label, J(L1, T1, E1))
+            run.oblige("C17|%s/timeout_check/does-nothing-once-completed" % label, z3.Implies(L0, z3.And(L1, T1 == T0, E1 == E0)))
+            run.oblige("C17|%s/timeout_check/otherwise-completes-the-wait-with-a-timeout" % label, z3.Implies(z3.Not(L0), z3.And(L1, T1, is_none(E1))))
+        elif seg == 2:
+            if not polling:
+                raise PathEnd()
+            # --- segment: poll -- it re-requests the properties only while the wait has not completed
+            pl = [t for t in tasks if isinstance(t, ICoroutine) and t.func.name == "poll"]
+            run.oblige("C17|%s/poll/is-the-scheduled-task" % label, z3.BoolVal(len(pl) == 1))
+            if not pl:
+                return
+            L0, T0, E0 = set_state("poll")
+            n_before = len(sent)
+            I.max_unroll = 3
+            try:
+                I.do_await(pl[0])
+            except IRaise as e:
+                run.fail("C17|%s/poll/raises-nothing" % label, "raised %s" % e)
+                return
+            except OutOfReach:
+                # still unrolling: the wait has not completed on this path, sends are allowed
+                run.oblige("C17|%s/poll/keeps-requesting-only-while-not-completed" % label, z3.Not(L0))
+                for m in sent[n_before:]:
+                    run.oblige("C17|%s/poll/re-requests-the-waited-for-properties" % label,
+                               z3.BoolVal(isinstance(m, IObject) and m.cls.name == "GetProperties" and m.fields.get("device") == "D" and m.fields.get("name") == "V"))
+                raise PathEnd()
+            run.oblige("C17|%s/poll/stops-without-sending-once-completed" % label, z3.Implies(L0, z3.BoolVal(len(sent) == n_before)))
+            L1, T1, E1 = get_state()
+            run.oblige("C17|%s/poll/never-touches-the-result" % label, z3.And(L1 == L0, T1 == T0, E1 == E0))
+        else:
+            # --- segment: the tail of the wait, resumed with the lock set in any state satisfying J
+            L0, T0, E0 = set_state("tail")
+            run.assume(L0)
+            outcome = None
+            I.await_hook = lambda I_, v: None
+            try:
+                # resume: re-run the remaining statements of waitforevent in the captured frame
+                import ast as _ast
+                body = f.node.body
+                idx = [i for i, st in enumerate(body) if isinstance(st, _ast.Expr) and isinstance(st.value, _ast.Await)]
+                I.frames.append((f, env))
+                try:
+                    I.exec_block(body[idx[-1] + 1:], env, f.module, f.qualname + ".<locals>")
+                    outcome = ("fell-through", None)
+                except ReturnEx as r:
+                    outcome = ("returned", r.value)
+                finally:
+                    I.frames.pop()
+            except IRaise as e:
+                outcome = ("raised", e)
+            run.oblige("C17|%s/tail/leaves-no-callback-registered" % label, z3.BoolVal(len(c.fields["callbacks"].items) == ncb0))
+            if outcome[0] == "raised":
+                run.oblige("C17|%s/tail/fails-only-when-the-timeout-fired" % label, T0)
+            elif outcome[0] == "returned":
+                run.oblige("C17|%s/tail/returns-the-recorded-first-match-when-no-timeout-fired" % label,
+                           z3.And(z3.Not(T0), I.to_term(outcome[1]) == E0, z3.Not(is_none(E0))))
+            else:
+                run.fail("C17|%s/tail/returns-or-raises" % label, "fell through")
     return task
